@@ -106,7 +106,7 @@ Qed.
 Lemma allowed_nil k : allowed k [] = true.
 Proof. destruct k; vm_compute; reflexivity. Qed.
 
-(* appending a child admitted by the class guard *)
+(* appending a child that the class guard lets through *)
 Definition simple_guard (k kc : kind) : bool :=
   match k with
   | KBody => kind_in kc [KDiv]
